@@ -125,6 +125,12 @@ class Observer(Wire):
         ptype = payload[0]
         ds.packets.append((ds.epoch, ds.seq, ptype, payload, len(data)))
 
+        # wire write index of each decoded packet (parallel to ds.packets)
+        if not hasattr(ds, 'packet_index'):
+            ds.packet_index = []
+
+        ds.packet_index.append(getattr(self, 'cur_index', None))
+
         if self.on_packet is not None:
             self.on_packet(dirname, ds.epoch, ds.seq, payload)
 
